@@ -265,6 +265,9 @@ func (w *World) run() {
 	case w.c.Raw != nil && w.c.Raw.Role == "client":
 		w.buildRawClientActors()
 		w.eventsDone = make([]bool, len(w.c.Events))
+		for i, ev := range w.c.Events {
+			w.tr.Events = append(w.tr.Events, &EventRec{Idx: i, Kind: ev.Kind, Fired: -1, Returned: -1})
+		}
 		w.holdCarriers()
 	case w.c.Raw != nil && w.c.Raw.Role == "server":
 		w.buildRawServerActors()
@@ -684,6 +687,10 @@ func (w *World) setup() bool {
 				if ti >= 0 && ti < len(w.tunnels) {
 					t = w.tunnels[ti]
 					t.ch = ch
+					if t.rec.Late {
+						t.rec.Opened = true
+						t.rec.OpenErr = ""
+					}
 					t.rec.Callbacks = append(t.rec.Callbacks, fmt.Sprintf("open@%d", w.step))
 				} else {
 					w.tr.Notes = append(w.tr.Notes, fmt.Sprintf("open callback for unknown tunnel %d", ti))
@@ -863,9 +870,10 @@ func (w *World) openTunnel(spec TunnelSpec, fatal bool) bool {
 		}
 		t.server = w.servers[spec.Server]
 		w.mu.Unlock()
+		createdBefore := len(t.server.conn.Created())
 		go w.serveLoop(t)
 		w.settle()
-		if cs := t.conn.Created(); len(cs) > 0 && t.server.conn == t.conn {
+		if cs := t.server.conn.Created(); len(cs) > createdBefore {
 			w.mu.Lock()
 			t.carrier = cs[len(cs)-1]
 			t.rec.Carrier = t.carrier.Idx
@@ -912,6 +920,11 @@ func (w *World) openTunnel(spec TunnelSpec, fatal bool) bool {
 func (w *World) serveLoop(t *tunnelState) {
 	var started bool
 	var err error
+	w.mu.Lock()
+	if w.phase != "setup" {
+		t.rec.ServeCalled = w.step
+	}
+	w.mu.Unlock()
 	func() {
 		defer func() {
 			if r := recover(); r != nil {
@@ -2519,6 +2532,21 @@ func (w *World) fire(i int) {
 	case "break_client", "break_server", "break_both":
 		if t := tun(); t != nil && t.carrier != nil {
 			t.carrier.Break(ev.Kind != "break_server", ev.Kind != "break_client")
+			rec.Returned = rec.Fired
+		}
+	case "serve_more":
+		// one more Serve call on an existing reverse-tunnel server; its carrier stream is delivered by the schedule
+		if sv := w.serverAt(ev.Target); sv != nil {
+			sv.conn.HoldNew(w.c.Cfg.Cap)
+			w.mu.Lock()
+			n := len(w.tunnels)
+			w.mu.Unlock()
+			w.openTunnel(TunnelSpec{Server: ev.Target}, false)
+			w.mu.Lock()
+			if len(w.tunnels) > n {
+				w.tunnels[n].rec.Late = true
+			}
+			w.mu.Unlock()
 			rec.Returned = rec.Fired
 		}
 	case "stop":
